@@ -44,6 +44,10 @@ exception Unsupported
 
 (* ------------------------------------------------------------------ parser scenarios *)
 open ParserModel
+let pattern_bytes n sd = L.init n (fun i -> int_to_n ((sd + i * 7) land 255))
+let rec chunks_of k l = if l = [] then [] else
+  let rec take j l = if j = 0 then ([], l) else (match l with x :: r -> let (a, b) = take (j-1) r in (x :: a, b) | [] -> ([], [])) in
+  let (a, b) = take k l in a :: chunks_of k b
 let parse_op s =
   match S.split_on_char ':' s with
   | ["PI32";m] -> PI32 (b01 m) | ["PU32";m] -> PU32 (b01 m) | ["PI64";m] -> PI64 (b01 m) | ["PU64";m] -> PU64 (b01 m)
@@ -74,6 +78,14 @@ let parse_op s =
   | ["PEXPRN";idx;m] -> PEXPRN (int_to_z (int_of_string idx), b01 m)
   | ["PEXPRC";idx;cap;m] -> PEXPRC (int_to_z (int_of_string idx), int_to_z (int_of_string cap), b01 m)
   | _ -> raise Unsupported
+(* operations the driver expands into model operations: big pattern blocks *)
+let parse_ops s =
+  match S.split_on_char ':' s with
+  | ["RBIG"; n; sd] -> [RBLOCK (pattern_bytes (int_of_string n) (int_of_string sd))]
+  | ["RBIGS"; n; sd; ch] ->
+      let k = int_of_string ch in
+      RHDR (int_to_z (int_of_string n)) :: (if k <= 0 then [] else L.map (fun d -> RDATA d) (chunks_of k (pattern_bytes (int_of_string n) (int_of_string sd))))
+  | _ -> [parse_op s]
 let print_trace buf (tr:event list) =
   let wbuf = Buffer.create 64 in
   let flushw () = if Buffer.length wbuf > 0 then (Buffer.add_string buf " W"; Buffer.add_buffer buf wbuf; Buffer.clear wbuf) in
@@ -106,7 +118,7 @@ let run_scenario line =
     match S.split_on_char ' ' part with
     | "S" :: c :: q :: _ -> cap := int_of_string c; qcap := int_of_string q
     | ["C"; tag; pat; script] ->
-        let ops = if script = "-" then [] else L.map parse_op (S.split_on_char ';' script) in
+        let ops = if script = "-" then [] else L.concat (L.map parse_ops (S.split_on_char ';' script)) in
         cmdl := ((unhex pat, int_to_z (int_of_string tag)), ops) :: !cmdl
     | ["C"; tag; pat] -> cmdl := ((unhex pat, int_to_z (int_of_string tag)), []) :: !cmdl
     | ["I"; h] ->
